@@ -603,10 +603,10 @@ def tail_start(m):
             # a block followed by only whitespace => it is the tail itself
             if m[j + 1:].strip() == "":
                 return last
-            # block statement (if/for/while/match): boundary unless followed by '.' or '?'
+            # block statement (if/for/while/match): boundary unless followed by '.', '?' or `else`
             rest = m[j + 1:].lstrip()
             i = j + 1
-            if rest[:1] not in ".?":
+            if rest[:1] not in ".?" and not re.match(r"else\b", rest):
                 # could still be the scrutinee braces of `match x {..}` used as expression statement
                 last = i
             continue
